@@ -97,7 +97,7 @@ def _r13_arith(ctx):
 prop('C13',
      [('R00.dyn', RG.rule_no_dynamic), ('R13.1', RM.rule_members), ('R13.2', RM.rule_space_guard),
       ('R13.5', _r13_arith), ('R13.6', RM.rule_dot_invert), ('R13.9', RM.rule_items),
-      ('R13.i', RM.rule_iterpairs), ('R13.I', RM.rule_identity)],
+      ('R13.i', RM.rule_iterpairs), ('R13.I', RM.rule_identity), ('R13.h', RM.rule_history)],
      'Static analysis of pyPRISM/core/MatrixArray.py: every operator member is abstractly interpreted on a heap with '
      'array identity for each operand kind (MatrixArray, scalar, ndarray): the result term must be the elementwise '
      'operation (einsum literal parsed to the batch matrix product for dot, linalg.inv for invert); out-of-place '
